@@ -246,7 +246,7 @@ def differential(c, binary, seed, n=250):
 
 # ------------------------------------------------------------------ entry points
 def run(rep, tier, seed):
-    depth = 8 if tier == 'quick' else 11
+    depth = 14 if tier == 'quick' else 24
     depth = int(os.environ.get('VERIF_C16_DEPTH', depth))
     rep.engines.add('mirsym (engine S) + z3 %s' % z3.get_version_string())
     rep.bounds.update({'operation_sequence_length': depth, 'max_senders': MAX_SENDERS, 'payload': 'symbolic u8 per send',
